@@ -86,6 +86,11 @@ def main():
     const("gen_REQUIRE", grab(lv, r'if ident\.sym == "([^"]*)"\s*&& !call\.args\.is_empty\(\)', "require name"))
     const("gen_REGEXP", grab(lv, r'if ident\.sym == "([^"]*)"\s*&& new_exp', "RegExp name"))
     const("gen_SOURCE_MAP_URL", grab(rw, r'const SOURCE_MAP_URL: &str = "([^"]*)";', "SOURCE_MAP_URL"), "rewriter.rs")
+    # which sourceMappingURL comment wins: an earlier-or-equal position is skipped (iteration order of the comment store is arbitrary)
+    skip_op = grab(rw, r'last_pos\.is_some_and\(\|pos\| comment\.span\.lo (<=|<|>=|>) pos\)', "comment selection comparison")
+    raw("gen_comment_skip", "N -> N -> bool",
+        {"<=": "N.leb", "<": "N.ltb", ">=": "fun a b => N.leb b a", ">": "fun a b => N.ltb b a"}.get(skip_op, "fun _ _ => false"),
+        "extract_source_map: `comment.span.lo %s pos` -> continue" % skip_op)
     const("gen_trailer_format", rust_unescape(grab(rw, r'format!\(\s*"(\{\}\\n//\{\}data:application/json;base64,\{\})",', "trailer format")), "print_js")
     const("gen_prologue_template", rust_unescape(grab(rw, r'let template = "((?:[^"\\]|\\.)*)";', "prologue template")), "generate_prefix_stmts")
     const("gen_prologue_entry_format", grab(rw, r'\.map\(\|csi_method\| format!\("([^"]*)", csi_method\.dst\)\)', "prologue entry format"))
